@@ -22,7 +22,7 @@ declarative rule: among ALL checkpoints of the tree, take the one whose key
 is largest in the lexicographic order — "highest justified checkpoint, then greatest height,
 then largest hash".  `Tree.paths` / `jhOf` (Lemmas/NodeTree) are the declarative side.
 -/
-import BytomModel.Lemmas.NodeTree
+import BytomModel.Lemmas.NodeTree11
 import BytomModel.Lemmas.NodeReorg
 
 namespace BytomModel.Props.C11
